@@ -190,7 +190,8 @@ class Parser:
         if m:
             self.i += m.end()
             vs = m.group(2).split("|")
-            f = B.Or(*[B.atom("is(%s; %s)" % (a, v)) for v in vs])
+            # Option / Result: `is None` is written as `isnt Some` (the code side uses the same canonical variant)
+            f = B.Or(*[(B.Not(B.atom("is(%s; %s)" % (a, {"None": "Some", "Err": "Ok"}[v]))) if v in ("None", "Err") else B.atom("is(%s; %s)" % (a, v))) for v in vs])
             if m.group(1) == "isnt":
                 f = B.Not(f)
             return B.And(*(list(imp) + [f]))
@@ -210,6 +211,11 @@ class Parser:
                 f = B.Not(f)
             return B.And(*(list(imp + imp2) + [f]))
         if k == "call":
+            # total orders: lt / le are written as the negation of ge / gt (the code side is normalised the same way)
+            if a.startswith("PartialOrd::lt("):
+                return B.And(*(list(imp) + [B.Not(B.atom("PartialOrd::ge(" + a[len("PartialOrd::lt("):]))]))
+            if a.startswith("PartialOrd::le("):
+                return B.And(*(list(imp) + [B.Not(B.atom("PartialOrd::gt(" + a[len("PartialOrd::le("):]))]))
             return B.And(*(list(imp) + [B.atom(a)]))
         if k == "path":
             # a bare path is a boolean-valued term (e.g. a bool field)
